@@ -171,6 +171,19 @@ class _Flow(Exception):
         self.kind = kind
 
 
+class FuncTok:
+    """a known callable held in a variable (so that `h = self.save_state if ok else self.revert_state; h()` is followed)"""
+
+    def __init__(self, name: str):
+        self.name = name
+
+    def __repr__(self):
+        return f"<callable {self.name}>"
+
+    def __bool__(self):
+        return True
+
+
 class _Unknown:
     def __repr__(self):
         return "<unknown>"
@@ -191,8 +204,16 @@ def run_stmts(stmts, env: dict, on_call=None, budget: int = 2000, on_store=None)
             if isinstance(st.value, ast.Constant):
                 continue
             if isinstance(st.value, ast.Call):
+                f = st.value.func
+                while isinstance(f, ast.IfExp):  # (a if c else b)(...)
+                    f = f.body if ev(f.test, env) else f.orelse
+                ftxt = norm(f)
+                if isinstance(f, (ast.Name, ast.Attribute)) and isinstance(env.get(ftxt), FuncTok):
+                    ftxt = env[ftxt].name  # a local standing for a known callable
+                elif isinstance(f, ast.Name) and ftxt not in env and env.get("__strict_calls__"):
+                    raise PredUnsupported(f"call of `{ftxt}`, a local the evaluator has no value for")
                 if on_call is not None:
-                    on_call(norm(st.value.func), st.value)
+                    on_call(ftxt, st.value)
                 continue
             raise PredUnsupported(f"statement `{norm(st)[:60]}`")
         if isinstance(st, (ast.Assign, ast.AnnAssign)):
